@@ -339,7 +339,8 @@ class CookieJar(AbstractCookieJar):
                 tmp[name] = cookie  # type: ignore[assignment]
                 cookie = tmp[name]
 
-            domain = cookie["domain"]
+            # The Domain attribute is case-insensitive (RFC 6265 5.2.3)
+            domain = cookie["domain"] = cookie["domain"].lower()
 
             # ignore domains with trailing dots
             if domain and domain[-1] == ".":
